@@ -56,3 +56,22 @@ Theorem C11_code_epsremove_is_model : forall (S : StarSR) (K : mat S) (m : wfsa 
   gen_epsremove_with S K (states_of m) m = epsremove_with K m.
 Proof. intros; apply gen_epsremove_model. Qed.
 Print Assumptions C11_code_epsremove_is_model.
+
+(* Automata with epsilon CYCLES: the sum over all paths is infinite, but in every star semiring the values
+   the library computes (closure table K of the epsilon graph, K = I + E K, which Lehmann's elimination is
+   proved to return whenever its pivot stars are defined) satisfy the PATH EQUATIONS of the automaton:
+   from a state one either stops / reads the next symbol on a real arc, or first takes an epsilon arc. *)
+From GV.proofs Require EpsEquations.
+Theorem C11_path_equations : forall (S : StarSR) (m : wfsa S),
+  LehmannProof.defined S (states_of m) (eps_mat m) ->
+  let st := states_of m in
+  let K := lehmann st (eps_mat m) in
+  let v := EpsEquations.val K m in
+  (forall xs, call m xs = bsum (winit m) (fun e => smul (snd e) (v (fst e) xs))) /\
+  (forall q, In q st -> v q [] = sadd (wget (wfinal m) q) (bsum st (fun j => smul (epsf m q j) (v j [])))) /\
+  (forall q a xs, In q st ->
+     v q (a :: xs) = sadd (bsum (warcs m) (fun ar => if andb (Nat.eqb (asrc ar) q) (lbl_eqb (albl ar) a)
+                                                   then smul (awt ar) (v (adst ar) xs) else s0))
+                          (bsum st (fun j => smul (epsf m q j) (v j (a :: xs))))).
+Proof. intros S m Hd. exact (EpsEquations.call_path_equations S m Hd). Qed.
+Print Assumptions C11_path_equations.
